@@ -132,12 +132,12 @@ def _change_pivot(
     new_dr = np.sign(r) * new_dist.rho - r
     new_phi0 = (new_dist.phi + (r < 0) * np.pi) % (2 * np.pi)
 
-    if isinstance(new_phi0, np.ndarray):
-        dphi = np.unwrap(new_phi0 - old_phi0)
-    else:
-        dphi = (new_phi0 - old_phi0) % (2 * np.pi)
-        if dphi > np.pi:
-            dphi -= 2 * np.pi
+    # turning angle of each track, normalised to (-pi, pi] independently of the other tracks
+    dphi = (new_phi0 - old_phi0) % (2 * np.pi)
+    if isinstance(dphi, np.ndarray):
+        dphi = np.where(dphi > np.pi, dphi - 2 * np.pi, dphi)
+    elif dphi > np.pi:
+        dphi -= 2 * np.pi
     new_dz = old_pivot.z + old_dz - r * tanl * dphi - new_pivot.z
 
     # transform error matrix
